@@ -340,7 +340,7 @@ def ob_header(n):
 
 def obligations(tier):
     q = tier == 'quick'
-    A = '@\\ab-$ \r\n'
+    A = '@\\ab-$ \r\n\u00e9'      # \u00e9: a non-ASCII letter - placeholder names are ASCII only, whatever \\w or str.isalnum() think
     out = []
     for n in range(1, 7 if q else 9):
         out.append(Obligation('meson-line[%d]' % n, ob_meson(n, A if n <= 5 else '@\\a $'), dict(length=n, alphabet=A if n <= 5 else '@\\a $', data='1 entry: str(2 over @ax\\)|int|bool'),
